@@ -7,6 +7,13 @@ enum { E_MALFORMED = 100, E_TOO_LARGE = 101, E_INVALID_TOPIC = 104, E_QOS = 105,
 
 struct caps_t { bool has_mps; uint32_t mps; bool has_mq; uint8_t mq; bool has_ra; uint8_t ra; bool has_tam; uint16_t tam; bool has_wsa; uint8_t wsa; bool has_ssa; uint8_t ssa; bool has_sia; uint8_t sia; };
 
+// the client's OWN limits, sent in CONNECT, bind the broker, not the client: they must not leak into what the client may send
+static void own_limits(W& w) {
+  if (!vk_choose(2)) return;
+  uint16_t tam = vk_sym_u16(); vk_assume(tam >= 1); uint16_t rm = vk_sym_u16(); vk_assume(rm >= 1); uint32_t mps = vk_sym_u32(); vk_assume(mps >= 16 && mps <= 64);
+  connect_props cp; cp[prop::topic_alias_maximum] = tam; cp[prop::receive_maximum] = rm; cp[prop::maximum_packet_size] = mps;
+  w.c.connect_properties(cp); vk_reach("own-limits-configured");
+}
 static void connack_with(W& w, caps_t& c, int profile) {
   // profile 0: nothing announced (defaults), 1: everything announced with symbolic values
   c = caps_t{};
@@ -33,7 +40,7 @@ static void check_nothing_consumed(W& w, int writes_before) {
 
 extern "C" void h_caps_publish(void) {
   W* wp = new W(); W& w = *wp; caps_t c;
-  w.start(); bool ok = w.establish(); vk_assert(ok, "first connection"); connack_with(w, c, vk_choose(2));
+  own_limits(w); w.start(); bool ok = w.establish(); vk_assert(ok, "first connection"); connack_with(w, c, vk_choose(2));
   // ---- one request touching the limits
   uint8_t q = (uint8_t)vk_choose(3); bool retain = vk_choose(2); bool has_alias = vk_choose(2); uint16_t alias = has_alias ? vk_sym_u16() : 0;
   size_t plen = vk_choose(3) * 24;                 // payload of 0 / 24 / 48 bytes: below, around and above a Maximum Packet Size of 16..64
@@ -69,7 +76,7 @@ extern "C" void h_caps_publish(void) {
 
 extern "C" void h_caps_subscribe(void) {
   W* wp = new W(); W& w = *wp; caps_t c;
-  w.start(); bool ok = w.establish(); vk_assert(ok, "first connection"); connack_with(w, c, vk_choose(2));
+  own_limits(w); w.start(); bool ok = w.establish(); vk_assert(ok, "first connection"); connack_with(w, c, vk_choose(2));
   int kind = vk_choose(5); bool has_id = vk_choose(2);
   static const char* filters[] = {"a/b", "a/+", "a/#", "$share/g/a", "$share/g/a/#"};
   bool wildcard = kind == 1 || kind == 2 || kind == 4, shared = kind >= 3;
